@@ -187,7 +187,13 @@ LRecTemplates ==
     \* the recursion passes through a context scope: the memo table is the parse's, not the scope's
     <<"rec", <<"memo", <<"or", <<"then", <<"withctx", VI(0), Ref1>>, <<"then", J("+"), J("a")>>>>, J("a")>>>>>>,
     <<"rec", <<"memo", <<"or", <<"then", <<"ignctx", <<"empty">>, Ref1>>, <<"then", J("+"), J("a")>>>>, J("a")>>>>>>,
-    <<"rec", <<"or", <<"then", <<"mapctx", "num", <<"memo", Ref1>>>>, <<"then", J("+"), J("a")>>>>, J("a")>>>> }
+    <<"rec", <<"or", <<"then", <<"mapctx", "num", <<"memo", Ref1>>>>, <<"then", J("+"), J("a")>>>>, J("a")>>>>,
+    \* the cut (the memoized parser met again at the same position) is a FAILURE like any other: it leaves a pending
+    \* error for the wrappers that rely on one (map_err, recover_with, labelled) -- C20
+    <<"rec", <<"memo", <<"or", <<"then", <<"maperr", Ref1, "tag">>, <<"then", J("+"), J("a")>>>>, J("a")>>>>>>,
+    <<"rec", <<"memo", <<"or", <<"then", <<"recover", Ref1, <<"via", <<"to", J("+"), "r">>>>>>, <<"then", J("+"), J("a")>>>>, J("a")>>>>>>,
+    <<"rec", <<"memo", <<"or", <<"then", <<"label", Ref1, "L", TRUE>>, <<"then", J("+"), J("a")>>>>, J("a")>>>>>>,
+    <<"rec", <<"or", <<"then", <<"maperr", <<"memo", Ref1>>, "id">>, <<"then", J("+"), J("a")>>>>, J("a")>>>> }
 (* repetition shapes (C02): every bound / flag combination over a few item and separator      *)
 (* parsers, each also followed by a rest-capturing continuation so that the position the      *)
 (* repetition leaves behind is observable                                                      *)
